@@ -662,8 +662,6 @@ def classify_exc(e: BaseException) -> list[Any]:
     if isinstance(e, ValueError):
         if "Schema mismatch in ExternalLocation" in s:
             return ["schemaMismatch"]
-        if "is not a valid Level" in s:
-            return ["badLevel"]
     return ["other", type(e).__name__, s[:120]]
 
 
